@@ -539,6 +539,13 @@ static void run_obj(Choices &c, Ctx &ctx)
 	{
 		SpanGuard g(c);
 		const std::string &k = many && i < np ? ob.pool[i] : ob.pool[c.pickn(ob.pool.size())];
+		if (c.coin(2))
+		{
+			// selecting the other string hash must only affect objects created afterwards
+			json_global_set_string_hash(c.coin(50) ? JSON_C_STR_HASH_PERLLIKE : JSON_C_STR_HASH_DFLT);
+			ob.log("json_global_set_string_hash switched");
+			ctx.label("hash_selection_switched_mid_history");
+		}
 		switch (many && i < np ? 0 : c.pick({12, 8, 2, 1}))
 		{
 		case 0: ob.add(k, (int)c.pickn(3), val++); break;
